@@ -279,7 +279,8 @@ type Hist struct {
 }
 
 // runOnce executes the program once on a fresh object; mode selects how the
-// goroutines are released (0: spin barrier, 1: no barrier, 2: barrier + yields).
+// goroutines are released (0: yielding spin barrier, 1: no barrier, 2: barrier +
+// yields between operations, 3: busy spin barrier - tightest simultaneous start).
 func runOnce(p *Prog, mode int, rng *rand.Rand, stamps bool) ([]HOp, bool) {
 	obj := newObject(p.Obj, p.Min, p.Max)
 	var clock atomic.Int64
@@ -312,7 +313,10 @@ func runOnce(p *Prog, mode int, rng *rand.Rand, stamps bool) ([]HOp, bool) {
 		go func(g int) {
 			defer wg.Done()
 			ready.Done()
-			if mode != 1 {
+			if mode == 3 {
+				for gate.Load() == 0 {
+				}
+			} else if mode != 1 {
 				for gate.Load() == 0 {
 					runtime.Gosched()
 				}
@@ -398,7 +402,7 @@ func TestDrive(t *testing.T) {
 		seen := map[string]*Hist{}
 		var order []string
 		for r := 0; r < reps; r++ {
-			ops, ok := runOnce(&p, r%3, rng, stamps)
+			ops, ok := runOnce(&p, r%4, rng, stamps)
 			runs++
 			if !ok {
 				w.Flush()
